@@ -184,10 +184,10 @@ func (e *Exec) sliceElemAddr(ref, idx Term, el types.Type) *Addr {
 func (e *Exec) assumeFreshRef(ref Term, st *State) {
 	c := e.c
 	c.assume(c.not(c.eq(ref, tNil)), "fresh ref non-nil")
-	for _, o := range e.prog.curRefs {
+	for _, o := range e.refs {
 		c.assume(c.not(c.eq(ref, o)), "fresh ref distinct")
 	}
-	e.prog.curRefs = append(e.prog.curRefs, ref)
+	e.refs = append(e.refs, ref)
 	e.trusted["freshly allocated objects are distinct from parameters and earlier allocations (not from pointers loaded out of memory)"] = true
 }
 
@@ -286,9 +286,12 @@ func (e *Exec) unop(x *ssa.UnOp, st *State, reach Term) (Val, Term) {
 		if v.T().Sort.K == SFloat {
 			return scalar(x.Type(), c.app(sortFloat, "fp.neg", v.T())), reach
 		}
+		if lv, ok := litValue(v.T()); ok {
+			return scalar(x.Type(), bvLit(v.T().Sort.W, new(big.Int).Neg(lv))), reach
+		}
 		return scalar(x.Type(), c.app(v.T().Sort, "bvneg", v.T())), reach
 	case token.XOR:
-		return scalar(x.Type(), c.app(v.T().Sort, "bvnot", v.T())), reach
+		return scalar(x.Type(), e.foldNot(v.T())), reach
 	}
 	e.fail("unop %s", x.Op)
 	return Val{}, reach
@@ -517,8 +520,28 @@ func (e *Exec) shift(op token.Token, x Term, cnt Val, signed bool, reach Term, p
 		cw = e.extend(ct, w, false)
 	}
 	if lv, ok := litValue(cw); ok && big_.S == "false" {
-		if xv, okx := litValue(x); okx && op == token.SHL {
-			return bvLit(w, new(big.Int).Lsh(xv, uint(lv.Int64())))
+		if xv, okx := litValue(x); okx {
+			switch {
+			case op == token.SHL:
+				return bvLit(w, new(big.Int).Lsh(xv, uint(lv.Int64())))
+			case signed:
+				return bvLit(w, new(big.Int).Rsh(signedValue(xv, w), uint(lv.Int64())))
+			default:
+				return bvLit(w, new(big.Int).Rsh(xv, uint(lv.Int64())))
+			}
+		}
+	}
+	if big_.S == "true" {
+		if xv, okx := litValue(x); okx || !(signed && op == token.SHR) {
+			if op == token.SHL || !signed {
+				return bvLitI(w, 0)
+			}
+			if okx {
+				if signedValue(xv, w).Sign() < 0 {
+					return bvLitI(w, -1)
+				}
+				return bvLitI(w, 0)
+			}
 		}
 	}
 	var sh, over Term
